@@ -72,10 +72,11 @@ const (
 	KLongRuns
 	KNibble
 	KChain
+	KLongTail
 	KKindCnt
 )
 
-var kindNames = []string{"tiny", "randbytes", "sharedprefix", "fanout", "regular", "longruns", "nibble", "chain"}
+var kindNames = []string{"tiny", "randbytes", "sharedprefix", "fanout", "regular", "longruns", "nibble", "chain", "longtail"}
 
 func genKeySet(r *RNG, kind int, scale int) []string {
 	ks := []string{}
@@ -197,6 +198,16 @@ func genKeySet(r *RNG, kind int, scale int) []string {
 		for i := 0; i < m; i++ {
 			ks = append(ks, strings.Repeat(c, r.Intn(5))+randBytes(r, 1+r.Intn(2)))
 		}
+	case KLongTail:
+		// short shared prefixes followed by long distinct tails (leaf tails of 60..300 bytes)
+		np := 1 + r.Intn(3)
+		for p := 0; p < np; p++ {
+			pre := randBytes(r, r.Intn(3))
+			n := 1 + r.Intn(4)
+			for i := 0; i < n; i++ {
+				ks = append(ks, pre+randBytes(r, 1)+randBytes(r, []int{60, 63, 64, 65, 66, 100, 300}[r.Intn(7)]))
+			}
+		}
 	}
 	ks = uniqSorted(ks)
 	if len(ks) == 0 {
@@ -278,7 +289,7 @@ func genQueries(r *RNG, keys []string, budget int) []string {
 	n := len(keys)
 	for tries := 0; len(qs) < budget && tries < budget*4 && n > 0; tries++ {
 		k := keys[r.Intn(n)]
-		switch r.Intn(9) {
+		switch r.Intn(10) {
 		case 0: // one-bit mutation
 			if len(k) > 0 {
 				b := []byte(k)
@@ -310,6 +321,13 @@ func genQueries(r *RNG, keys []string, budget int) []string {
 			}
 		case 7:
 			add(randBytes(r, r.Intn(6)))
+		case 9: // mutation near the end of a long key
+			if len(k) > 8 {
+				b := []byte(k)
+				i := len(b) - 1 - r.Intn(8)
+				b[i] ^= 1 << uint(r.Intn(8))
+				add(string(b))
+			}
 		case 8: // nibble mutation: +-1 on one nibble
 			if len(k) > 0 {
 				b := []byte(k)
